@@ -120,6 +120,19 @@ def handle_seq_of_list(lst):
     raise Unsupported("not a list of object handles: %r" % (lst,))
 
 
+class HPairDict(object):
+    """dict built during the call whose keys and values are integer handles of abstract objects: recorded as the
+    sequence key, value, key, value ... of its insertions, in order (z3 Seq Int).  Only `d[k] = v` is defined."""
+    def __init__(self):
+        self.hseq = z3.Empty(z3.SeqSort(z3.IntSort()))
+
+
+def pair_seq_of_dict(d):
+    if isinstance(d, HPairDict):
+        return sym.ZSeq(d.hseq)
+    raise Unsupported("not a dict of object handles: %r" % (d,))
+
+
 class HSetList(object):
     """list abstracted to the set of its elements (only `in` / `append` are homomorphic and allowed)"""
     def __init__(self, sset):
@@ -590,7 +603,9 @@ class Contract(object):
                  yield_count=None, yield_at=None, yield_post=None, loops=None, result=None, effect=None,
                  inline=False, opaque=(), note="", exc_ensures=None, modifies=(),
                  yield_seq=0, yield_encode=None, yields_eq=None, native_yields=None, native_post=None, findings=(),
-                 name=None, when=None, examples=None, external_args=(), result_pytype=None, externals=(), unfold_depth=None, no_native_replay=False, yield_fresh=None, yield_post_call=None, native_check=None, accumulators=None):
+                 name=None, when=None, examples=None, external_args=(), result_pytype=None, externals=(), unfold_depth=None, no_native_replay=False, yield_fresh=None, yield_post_call=None, native_check=None, accumulators=None, handle_is=None, handle_dicts=False):
+        self.handle_dicts = handle_dicts   # dict() in the function under contract builds a dict of abstract object handles (HPairDict)
+        self.handle_is = handle_is         # (engine, handle, concrete object) -> SBool | None: identity of an abstract object handle with a sentinel
         self.accumulators = accumulators or {}   # {local name: AccSpec}: byte strings tracked through a ghost decoder (HAcc)
         self.native_check = native_check   # (config, inputs) -> [violated labels]: custom native replay of the real function
         self.target = target
@@ -1089,6 +1104,12 @@ class Engine(object):
         return SBool(z3.Or(first, z3.And(x == y, _be(rest))))
 
     def identical(self, a, b):
+        hook = getattr(getattr(self, "current", None), "handle_is", None)
+        if hook is not None:
+            for x, y in ((a, b), (b, a)):
+                r = hook(self, x, y)
+                if r is not None:
+                    return r
         if isinstance(a, SOpt) and b is None:
             return SBool(a.isnone)
         if isinstance(b, SOpt) and a is None:
